@@ -7,7 +7,7 @@ import (
 
 // glsl decodes one GLSL.std.450 extended instruction.
 func (d *fdec) glsl(in *Inst, dst int32, inst uint32, ops []uint32) {
-	name := "GLSL.std.450 " + GLSLName(inst)
+	name := glslName(inst)
 	rt := d.resType(in)
 	need := func(n int) {
 		if len(ops) != n {
@@ -149,6 +149,10 @@ func (d *fdec) glsl(in *Inst, dst int32, inst uint32, ops []uint32) {
 	di.a, di.b, di.c = s[0], s[1], s[2]
 	d.emit(di)
 }
+
+type glslName uint32
+
+func (g glslName) String() string { return "GLSL.std.450 " + GLSLName(uint32(g)) }
 
 func f32(u uint32) float32 { return math.Float32frombits(u) }
 func u32(f float32) uint32 { return math.Float32bits(f) }
@@ -487,8 +491,14 @@ func (mc *machine) execGLSL(iv *inv, in *dinst) error {
 			var r uint32
 			switch inst {
 			case GFClamp:
+				if y > z { // "Result is undefined if minVal > maxVal."
+					return mc.trap("undef-result", "FClamp with minVal > maxVal")
+				}
 				r = u32(fminG(fmaxG(x, y), z))
 			case GNClamp:
+				if y > z {
+					return mc.trap("undef-result", "NClamp with minVal > maxVal")
+				}
 				r = u32(nmin(nmax(x, y), z))
 			case GFMix: // x*(1-a) + y*a
 				r = r64(float64(x)*(1-float64(z)) + float64(y)*float64(z))
